@@ -53,6 +53,55 @@ theorem pof_tail (bufO : List Sto) (top lt lb t : Int) (ptr : Int → Option Ele
   · refine Or.inr (Or.inr (Or.inr ⟨e, h1, h2, ?_⟩))
     rw [← h4, getLast?_tail_of_length x A' (hne h2)]
 
+theorem rc1_viewTop (buf : List Sto) (top base lb lt sh off : Int) (h : Rc1Shape buf top base lb lt sh off) :
+    viewTop buf top = top := by
+  rcases h with ⟨h1, _⟩ | ⟨h1, _⟩ <;> simp [h1, viewTop]
+
+theorem rc1_viewBase (buf : List Sto) (top base lb lt sh off : Int) (h : Rc1Shape buf top base lb lt sh off) :
+    viewBase buf base = base := by
+  rcases h with ⟨h1, _⟩ | ⟨h1, _⟩ <;> simp [h1, viewBase]
+
+theorem rc2_viewTop (buf : List Sto) (top base lb lt sh off : Int) (h : Rc2Shape buf top base lb lt sh off) :
+    viewTop buf top = lt + sh := by
+  rcases h with ⟨rfl, rfl, _⟩ | ⟨rfl, rfl, _⟩ | ⟨rfl, rfl, rfl, _⟩ <;> simp [viewTop]
+
+theorem rc2_viewBase (buf : List Sto) (top base lb lt sh off : Int) (h : Rc2Shape buf top base lb lt sh off) :
+    viewBase buf base = base := by
+  rcases h with ⟨h1, _⟩ | ⟨h1, _⟩ | ⟨h1, _⟩ <;> simp [h1, viewBase]
+
+theorem rcshape_viewBase (buf : List Sto) (top base lb lt sh : Int) (h : RcShape buf top base lb lt sh) :
+    viewBase buf base = lb + sh := by
+  rcases h with (rfl | ⟨rfl, rfl⟩ | ⟨rfl, rfl, _⟩) | ⟨rfl, rfl, _, rfl⟩ <;> simp [viewBase]
+
+theorem rcpre_append (buf suf : List Sto) (top lb lt sh : Int) (x : Sto) (h : RcPre buf suf top lb lt sh) :
+    RcPre (buf ++ [x]) (suf ++ [x]) top lb lt sh := by
+  rcases h with h1 | ⟨h1, h2⟩ | ⟨h1, h2, h3⟩
+  · exact Or.inl (by simp [h1])
+  · exact Or.inr (Or.inl ⟨by simp [h1], h2⟩)
+  · exact Or.inr (Or.inr ⟨by simp [h1], h2, h3⟩)
+
+/-- the memory-side window after a base-side insertion (drain of an inserting `base` store) -/
+theorem mwin_cons (A : List Elem) (ptr : Int → Option Elem) (lb top : Int) (g : Prop) (e : Elem)
+    (hmwin : ∀ k : Nat, k < A.length → (lb + k < top ∨ g) → ptr (lb + k) = A[k]?)
+    (hp : ptr (lb - 1) = some e) :
+    ∀ k : Nat, k < (e :: A).length → (lb - 1 + k < top ∨ g) → ptr (lb - 1 + k) = (e :: A)[k]? := by
+  intro k hk hk2
+  cases k with
+  | zero => simp [hp]
+  | succ j =>
+    have h1 := hmwin j (by simp at hk; omega) (hk2.elim (fun h => Or.inl (by omega)) Or.inr)
+    simp only [List.getElem?_cons_succ]
+    rw [← h1]; congr 1; omega
+
+/-- the complete window after the drain of a shift entry -/
+theorem mwin_shift (A : List Elem) (ptr : Int → Option Elem) (lb lt off : Int)
+    (hlen : (A.length : Int) = lt - lb)
+    (hfull : ∀ k : Nat, k < A.length → ptr (lb + k) = A[k]?) :
+    ∀ k : Nat, k < A.length → shiftPtr ptr lb lt off (lb + off + k) = A[k]? := by
+  intro k hk
+  rw [shiftPtr_apply, if_pos (by omega), ← hfull k hk]
+  congr 1; omega
+
 /-- while somebody else holds the lock the owner is not on its reset path -/
 theorem thief_not_resetting (s : St) (h : Inv s) (p : Pid) (hl : s.lock = .thief p) : resetting s.opc = false := by
   have h0 : ownerLocked s.opc = false := by
@@ -67,16 +116,16 @@ macro "tso_simp_h" : tactic => `(tactic|
 macro "tso_finish" : tactic => `(tactic| (
     constructor
     all_goals (try simp only [ownerLocked, carry, resetting, ownerFlight, upd_apply, applySto])
-    all_goals (first | assumption | grind [thiefLocked, mayBuf, notTrans, thiefFlight, List.length_dropLast] | grind [thiefLocked, mayBuf, notTrans, thiefFlight, List.length_dropLast, getLast?_tail_of_length, CarryShape, Pu2Shape, PofShape, Po6Shape, Po8Shape, Po9Shape, InsShape, TkfShape, Tk6Shape] | skip)))
+    all_goals (first | assumption | grind [thiefLocked, mayBuf, notTrans, thiefFlight, List.length_dropLast] | grind [thiefLocked, mayBuf, notTrans, thiefFlight, List.length_dropLast, getLast?_tail_of_length, CarryShape, Pu2Shape, PofShape, Po6Shape, Po8Shape, Po9Shape, InsShape, Rc1Shape, Rc2Shape, RcPre, RcShape, TkfShape, Tk6Shape] | skip)))
 
 /-- the closing part of `tso_finish`, for proofs that treat some clauses by hand after `constructor` -/
 macro "tso_rest" : tactic => `(tactic| (
-    all_goals (first | assumption | grind [thiefLocked, mayBuf, notTrans, thiefFlight, List.length_dropLast] | grind [thiefLocked, mayBuf, notTrans, thiefFlight, List.length_dropLast, getLast?_tail_of_length, upd_apply, CarryShape, Pu2Shape, PofShape, Po6Shape, Po8Shape, Po9Shape, InsShape, TkfShape, Tk6Shape] | skip)))
+    all_goals (first | assumption | grind [thiefLocked, mayBuf, notTrans, thiefFlight, List.length_dropLast] | grind [thiefLocked, mayBuf, notTrans, thiefFlight, List.length_dropLast, getLast?_tail_of_length, upd_apply, CarryShape, Pu2Shape, PofShape, Po6Shape, Po8Shape, Po9Shape, InsShape, Rc1Shape, Rc2Shape, RcPre, RcShape, TkfShape, Tk6Shape] | skip)))
 
 /-- like `tso_finish`, with the shapes unfolded at once (flush steps) -/
 macro "tso_finish3" : tactic => `(tactic| (
     constructor
     all_goals (try simp only [ownerLocked, carry, resetting, ownerFlight, upd_apply, applySto])
-    all_goals (first | assumption | grind [thiefLocked, mayBuf, notTrans, thiefFlight, List.length_dropLast, getLast?_tail_of_length, upd_apply, CarryShape, Pu2Shape, PofShape, Po6Shape, Po8Shape, Po9Shape, InsShape, TkfShape, Tk6Shape] | skip)))
+    all_goals (first | assumption | grind [thiefLocked, mayBuf, notTrans, thiefFlight, List.length_dropLast, getLast?_tail_of_length, upd_apply, CarryShape, Pu2Shape, PofShape, Po6Shape, Po8Shape, Po9Shape, InsShape, Rc1Shape, Rc2Shape, RcPre, RcShape, TkfShape, Tk6Shape] | skip)))
 
 end MythVerif.WsqTso
